@@ -264,6 +264,29 @@ def _run_property(pid, sp, tier, seed, my_findings, tmpdir, t0):
             workers.append((cmd, env, out, timeout, os.path.join(tmpdir, "w%d.log" % widx)))
             jobinfo.append(dict(job=job, bin=binpath, mode=mode, seed=wseed, faildir=faildir, idx=widx))
             widx += 1
+    # ---- replay tier: saved (shrunk) inputs of defects found earlier must pass on this tree
+    regress = []
+    rgdir = os.path.join(VERIF, "regress", pid)
+    if os.path.isdir(rgdir):
+        for fn in sorted(os.listdir(rgdir)):
+            if fn.endswith(".bin"):
+                h, mode = fn.split("-")[0], fn.split("-")[1]
+                if h in specs.HARNESS:
+                    regress.append((fn, h, mode))
+    regress_fails = []
+    if regress:
+        envr = san_env(tmpdir, quiet)
+        envr["TMPDIR"] = tmpdir
+        for fn, h, mode in regress:
+            rb = get_binary(dict(h=h, kind="pbt"))
+            for job in sp["jobs"]:
+                if job["h"] == h:
+                    for k, v in job.get("env", {}).items():
+                        envr[k] = str(tierval(v, tier))
+            rc, out = replay_once(rb, mode, os.path.join(rgdir, fn), envr)
+            if rc not in (0, 2):
+                res_line = [l for l in out.splitlines() if l.startswith("RESULT: FAIL")]
+                regress_fails.append((fn, h, mode, (res_line[0] if res_line else out[-300:])))
     build_s = time.time() - tb
     with ThreadPoolExecutor(max_workers=int(os.environ.get("VERIF_JOBS", "16"))) as ex:
         results = list(ex.map(run_worker, workers))
@@ -386,6 +409,8 @@ def _run_property(pid, sp, tier, seed, my_findings, tmpdir, t0):
         f["reproduced"] = reps
         violations.append(f)
 
+    for fn, h, mode, msg in regress_fails:
+        violations.append(dict(ji=dict(job=dict(h=h), mode=mode), cls="REGRESSION", sig="regress:" + fn, reproduced="1/1", msg="saved regression input fails again: " + msg, replay=os.path.join(rgdir, fn)))
     # ---- verdict
     for kf in my_findings:
         n = sum(v for k, v in excluded.items() if kf["sig"] in k)
@@ -404,7 +429,7 @@ def _run_property(pid, sp, tier, seed, my_findings, tmpdir, t0):
     all_nt = sum(len(s) for s in nt.values()) + int(enum_tot.get("nontrivial", 0))   # enumerated cases are distinct by construction
     wall = time.time() - t0
     cov = dict(
-        evaluations=max(0, tot["evaluations"] - tot["shrink_evals"]),
+        evaluations=max(0, tot["evaluations"] - tot["shrink_evals"]) + len(regress),
         distinct_nontrivial=all_nt,
         rule=sp["rule"],
         samples=samples[:12],
@@ -415,6 +440,7 @@ def _run_property(pid, sp, tier, seed, my_findings, tmpdir, t0):
         case_classes=tags,
         jobs={k: dict(workers=v["workers"], evaluations=v["evaluations"], distinct_nontrivial=len(nt.get(k, ()))) for k, v in per_job.items()},
         build_seconds=round(build_s, 1),
+        regression_inputs_replayed=len(regress),
         exhaustive=False,
     )
     if enum_tot:
